@@ -7,8 +7,8 @@ values live in `Gen.C09` and are plugged in by the driver and by `Props/C09.lean
 
 * `seqElement`  — `_ColorSequences._make_seq_element`: name → table code; `(r,g,b)` → int;
                   `'g<digits>'` → int; int → `"<3|4>8:5:<n>"`; everything else `ValueError`.
-                  Only the forms of the documented colour grammar are represented (`ColorSpec`):
-                  `bool`, `list`, tuples with non-int members and `'g+5'`/`'g 5'`/`'g1_0'` style
+                  Every kind of value is represented (`ColorSpec`): lists are tuples to the code, members of any
+                  type (`Num.other`), objects of any other type (`.other`); only `'g+5'`/`'g 5'`/`'g1_0'` style
                   strings (accepted by Python's `int()`) are outside the domain.
 * `mkSeq`       — `_ColorSequences.make`: prefix and suffix of a formatter.
 * `mkSeqBytes`  — the same with `make_bytes=True` (`str.encode()` = UTF-8).
@@ -33,22 +33,20 @@ def ESC : Char := Char.ofNat 27
 
 /-! ## colour arguments -/
 
-/-- a Python number: an `int` (also of a subclass, `bool` included), or a `float` with the value `num / den` (`den > 0`; `7.0` is
-`flt 7 1`: it compares and hashes equal to `int 7` but is not an `int`) -/
+/-- a member of a tuple / list passed as a colour value: an `int` (also of a subclass, `bool` included), a `float` with the
+value `num / den` (`den > 0`; `7.0` is `flt 7 1`: it compares and hashes equal to `int 7` but is not an `int`), or
+anything else (`None`, a `str`, a nested sequence, any other object) -/
 inductive Num where
   | int (n : Int)
   | flt (num : Int) (den : Nat)
+  | other
   deriving Repr, DecidableEq
 
-/-- `c < 0` -/
-def Num.neg : Num → Bool
-  | .int n => n < 0
-  | .flt num _ => num < 0
-
-/-- `c > 5` -/
-def Num.gt5 : Num → Bool
-  | .int n => n > 5
-  | .flt num den => num > 5 * (den : Int)
+/-- `isinstance(color, (list, tuple))`: the code treats both kinds (and their subclasses) alike -/
+inductive SeqKind where
+  | tuple
+  | list
+  deriving Repr, DecidableEq
 
 /-- a value passed as `color` / `bg_color` -/
 inductive ColorSpec where
@@ -56,8 +54,8 @@ inductive ColorSpec where
   | str (s : List Char)       -- any `str`
   | int (n : Int)             -- any `int`, also of a subclass (IntEnum member, `bool`: `True` is 1, …)
   | float (num : Int) (den : Nat)   -- any finite `float`
-  | tuple (xs : List Num)     -- a tuple (also namedtuple / subclass) of numbers, any length
-  | other                     -- a hashable object of another type (`bytes`, …)
+  | tuple (kind : SeqKind) (xs : List Num)   -- a tuple or a list (also namedtuple / subclasses) of any members, any length
+  | other                     -- an object of any other type, hashable or not (`bytes`, `dict`, `set`, `object()`, `complex`, …)
   deriving Repr, DecidableEq
 
 inductive Effect where
@@ -157,15 +155,15 @@ def seqElement (cfg : SgrCfg) (isBg : Bool) (c : ColorSpec) : Except Err (List C
           if shade > 24 then .error .valueError else intElem cfg id (232 + (shade : Int))
         | none => .error .valueError        -- `int()` failed: shade = -1
       | _ => .error .valueError
-  | .tuple xs =>
+  | .tuple _ xs =>                             -- `isinstance(color, (list, tuple))`
     match xs with
     | [r, g, b] =>
-      if r.neg ∨ r.gt5 ∨ g.neg ∨ g.gt5 ∨ b.neg ∨ b.gt5 then .error .valueError
-      else
-        match r, g, b with
-        | .int r, .int g, .int b => intElem cfg id (16 + r * 36 + g * 6 + b)
-        | _, _, _ => .error .valueError      -- the sum is a `float`: falls through to the last `raise`
-    | _ => .error .valueError
+      match r, g, b with
+      | .int r, .int g, .int b =>
+        if r < 0 ∨ r > 5 ∨ g < 0 ∨ g > 5 ∨ b < 0 ∨ b > 5 then .error .valueError
+        else intElem cfg id (16 + r * 36 + g * 6 + b)
+      | _, _, _ => .error .valueError          -- `not isinstance(c, int)` for some member
+    | _ => .error .valueError                  -- `len(color) != 3`
   | .int n => intElem cfg id n
   | .float _ _ => .error .valueError
   | .none => .error .valueError
@@ -517,8 +515,9 @@ def intsOf : List Num → Option (List Int)
   | [] => some []
   | .int n :: rest => (intsOf rest).map (n :: ·)
   | .flt _ _ :: _ => none
+  | .other :: _ => none
 
-/-- the documented colour grammar: `None`, the eight names, `0..255`, `(r,g,b)` with `int` components in
+/-- the documented colour grammar: `None`, the eight names, `0..255`, `(r,g,b)` (tuple or list) with `int` components in
 `0..5` ↦ `16+36r+6g+b`, `g<N>` with `N ≤ 23` ↦ `232+N`; `none` = not a colour -/
 def wantedColour : ColorSpec → Option Colour
   | .none => some .dflt
@@ -533,7 +532,7 @@ def wantedColour : ColorSpec → Option Colour
         | none => none
       | _ => none
   | .int n => if 0 ≤ n ∧ n ≤ 255 then some (.idx n.toNat) else none
-  | .tuple xs =>
+  | .tuple _ xs =>
     match intsOf xs with
     | some [r, g, b] =>
       if 0 ≤ r ∧ r ≤ 5 ∧ 0 ≤ g ∧ g ≤ 5 ∧ 0 ≤ b ∧ b ≤ 5 then some (.idx (16 + 36 * r + 6 * g + b).toNat)
